@@ -1957,6 +1957,42 @@ func c17R8(p *core.Program, r *core.Report) {
 				continue
 			}
 			n++
+			// a value the function literal captured stands for what the enclosing function bound it to
+			outer := func(v ssa.Value) ssa.Value {
+				if ld, ok := v.(*ssa.UnOp); ok && ld.Op == token.MUL {
+					if _, isFV := ld.X.(*ssa.FreeVar); isFV {
+						v = ld.X
+					}
+				}
+				fv, ok := v.(*ssa.FreeVar)
+				if !ok || fn.Parent() == nil {
+					return v
+				}
+				idx := -1
+				for i, q := range fn.FreeVars {
+					if q == fv {
+						idx = i
+					}
+				}
+				var bound ssa.Value
+				core.EachInstr(fn.Parent(), false, func(_ *ssa.Function, in ssa.Instruction) {
+					if mc, ok := in.(*ssa.MakeClosure); ok && mc.Fn == ssa.Value(fn) && idx >= 0 && idx < len(mc.Bindings) {
+						bound = mc.Bindings[idx]
+					}
+				})
+				if al, ok := bound.(*ssa.Alloc); ok { // a captured variable is a cell: what was stored into it
+					for _, ref := range *al.Referrers() {
+						if st, ok := ref.(*ssa.Store); ok && st.Addr == ssa.Value(al) {
+							return st.Val
+						}
+					}
+				}
+				if bound != nil {
+					return bound
+				}
+				return v
+			}
+			format = outer(format)
 			exact, how := false, "no comparison of len("+params.Name()+") with a count taken from the template decides the call"
 			for _, ce := range core.ControllingConds(cs.Instr.Block()) {
 				bo, ok := ce.Cond.(*ssa.BinOp)
@@ -1973,7 +2009,7 @@ func c17R8(p *core.Program, r *core.Report) {
 					continue
 				}
 				fromTemplate := false
-				for w := range core.BackSlice(other, func(*ssa.Call) bool { return true }) {
+				for w := range core.BackSlice(outer(other), func(*ssa.Call) bool { return true }) {
 					if w == format || (canon(w) != "" && canon(w) == canon(format)) {
 						fromTemplate = true
 					}
